@@ -114,11 +114,16 @@ def pos(rng, w, h, cur=None):
 
 
 def title(rng):
-    n = rng.choice([0, 1, 3, 8])
-    return [rng.choice([0x20, 0x41, 0x7E, 0xE9, rng.randrange(0x20, 0x7F)]) for _ in range(n)]
+    # any byte except BEL, ESC and ST (0x9C) may appear in a title (titleClean); lengths around buffer sizes too
+    n = rng.choice([0, 1, 3, 8, 8, 30, 63, 64, 65, 255, 256, 1000])
+    alphabet = [0x20, 0x41, 0x7E, 0xE9, 0x3B, 0x80, 0xFF, 0xC3, 0xA9, 0x00, 0x0A]
+    return [rng.choice(alphabet + [rng.randrange(0x20, 0x7F)]) for _ in range(n)]
 
 
-def history(rng, nops, blink=True, graphic=True, sized=True, ops_weights=None, behbits=None, wild=False):
+INPUTS = [b"\x1b[1;2R", b"\x1b[5;10R", b"\x1b[M !!", b"\x1b[M#+5", b"a", b"\r\n", b"\x1b[A", b"\x1b[15~", b"\x1bOP", b"\x9b3;3R", b"\x1b[", b"\x1b[?1;2c", b"\x1b[24;80R"]
+
+
+def history(rng, nops, blink=True, graphic=True, sized=True, ops_weights=None, behbits=None, wild=False, inputs=False):
     """returns the script line (without oracle config)"""
     if behbits is None:
         # bits 0-4: the five flags the library consults; bits 5-11: the seven it declares but ignores (non-default values)
@@ -132,13 +137,20 @@ def history(rng, nops, blink=True, graphic=True, sized=True, ops_weights=None, b
     cur = None
     weights = ops_weights or {"we": 30, "ws": 10, "mv": 20, "sv": 4, "rs": 4, "er": 8, "hc": 3, "sc": 3, "me": 2,
                               "md": 2, "ti": 2, "nb": 1, "ab": 1, "sz": 3, "re": 3, "da": 1, "dup": 6}
+    if inputs:
+        weights = dict(weights, **{"in": 12})
     names = list(weights)
     wts = [weights[n] for n in names]
     last = None
     for _ in range(nops):
         o = rng.choices(names, wts)[0]
         if o == "dup" and last is not None:
-            parts.append(last)
+            for _ in range(rng.choice([1, 1, 2, 3])):     # the same operation again - twice or three times now and then
+                parts.append(last)
+            continue
+        if o == "in":
+            data = rng.choice(INPUTS)
+            parts.append("in %d %s" % (len(data), " ".join(str(b) for b in data)))
             continue
         if o == "we" or o == "re":
             e = element(rng, prev, blink, graphic)
@@ -217,5 +229,24 @@ def short_histories(maxlen, cfgs):
             if not ok:
                 continue
             out.append(("T 0 ; sz 3 2 ; " + " ; ".join(seq), [cfgs[k % len(cfgs)]]))
+            k += 1
+    return out
+
+
+def short_histories_b(maxlen, cfgs):
+    """a second alphabet for the exhaustive short histories: all six erases, both buffers, mouse on/off, a title, the
+    two visibility requests, elements in three character sets, a move, save and restore, input arriving - on a 3x2
+    terminal whose behaviour has mouse and title capabilities"""
+    import itertools
+    a = "5 120 0 0 " + " ".join(map(str, DEFAULT_ATTR))
+    d = "0 113 0 0 0 2 0 0 0 9 0 0 22 4 27 25"
+    u = "18 226 130 172 0 9 0 0 1 196 0 0 1 24 7 25"
+    alphabet = ["er 0", "er 1", "er 2", "er 3", "er 4", "er 5", "nb", "ab", "me", "md", "ti 2 104 105", "hc", "sc",
+                "we " + a, "we " + d, "we " + u, "mv 1 1", "sv", "rs", "in 6 27 91 49 59 50 82"]
+    out = []
+    k = 0
+    for n in range(1, maxlen + 1):
+        for seq in itertools.product(alphabet, repeat=n):
+            out.append(("T %d ; sz 3 2 ; %s" % ((5, 10, 21, 26)[k % 4], " ; ".join(seq)), [cfgs[k % len(cfgs)]]))
             k += 1
     return out
